@@ -1042,13 +1042,26 @@ fn gen_status(rng: &mut Rng, h2: bool) -> StatusSpec {
     StatusSpec { code: rng.range(1, 16) as i32, msg: gen_text(rng), details: gen_details(rng), md: gen_md(rng, h2) }
 }
 
+/// sizes around HTTP/2's default frame size and flow-control window and tonic's yield threshold
+const BIG: [usize; 9] = [16379, 16384, 16385, 32763, 32768, 65530, 65536, 70000, 150000];
+
+fn gen_big(rng: &mut Rng) -> Vec<u8> {
+    let n = *rng.pick(&BIG);
+    let seed = rng.next() as u8;
+    let mut m: Vec<u8> = (0..n).map(|i| (i as u8).wrapping_mul(31).wrapping_add(seed)).collect();
+    if m[0] == 0xFF {
+        m[0] = 0xFE;
+    }
+    m
+}
+
 fn gen_sched(rng: &mut Rng, k: usize, maxlen: usize, pendings: bool) -> Vec<Tok> {
     let mut t = Vec::new();
     for _ in 0..k {
         while pendings && rng.chance(1, 4) {
             t.push(Tok::Pend);
         }
-        t.push(Tok::Msg(gen_msg(rng, maxlen)));
+        t.push(Tok::Msg(if rng.chance(1, 150) { gen_big(rng) } else { gen_msg(rng, maxlen) }));
     }
     while pendings && rng.chance(1, 4) {
         t.push(Tok::Pend);
@@ -1370,6 +1383,13 @@ fn corpus() -> Vec<Case> {
     out.push(Case { early: Some(StatusSpec { code: 0, ..rich.clone() }), ..base.clone() });
     out.push(Case { init_md: vec![(s("grpc-encoding"), s("gzip"))], ..base.clone() });
     out.push(Case { rq_md: vec![(s("grpc-encoding"), s("gzip"))], ..base.clone() });
+    // … the same name on a status returned as Err (trailers-only: it travels in HEADERS), and in
+    // the trailers of a stream (harmless there); value `identity` (accepted)
+    let mut forged = rich.clone();
+    forged.md.push((s("grpc-encoding"), s("br")));
+    out.push(Case { early: Some(forged.clone()), ..base.clone() });
+    out.push(Case { fin: Some(forged), ..ss.clone() });
+    out.push(Case { init_md: vec![(s("grpc-encoding"), s("identity"))], ..base.clone() });
     out
 }
 
@@ -1385,7 +1405,7 @@ pub fn generate(tier: &str, rng: &mut Rng) -> Vec<String> {
             }
         }
     }
-    let (n_struct, n_mal, n_h2, n_h2_mal) = if thorough { (40000, 8000, 2500, 500) } else { (3000, 600, 0, 0) };
+    let (n_struct, n_mal, n_h2, n_h2_mal) = if thorough { (400000, 60000, 40000, 6000) } else { (24000, 4000, 0, 0) };
     let mut inproc: Vec<String> = Vec::new();
     for _ in 0..n_struct {
         inproc.push(gen_structured(rng, false).line());
